@@ -271,3 +271,26 @@ Proof.
          (proj2 (proj2 C08_normalize_facts_ok)) p t Hp)).
 Qed.
 Print Assumptions C08_plugin_offsets.
+
+(* ================================================================== with_editor with a failing closure
+   InputBuffer::with_editor(func) commits the recorded replacements only when the closure answers Ok; when it answers Err the
+   batch is rolled back.  In the model (`with_editor cfg s fails es`): a rejected batch answers Err and leaves text, offset
+   map and original exactly as they were -- nothing of it can leak into a later batch or a later text -- and reachability,
+   over which all theorems above are stated, is closed under with_editor whatever the closure answers.  The implementation
+   is compared with this after every batch of every text on a reused InputBuffer (check_c08_session). *)
+Theorem C08_failed_batch_is_noop :
+  forall s es,
+    with_editor the_cfg s true es = Err /\
+    cur (after s (with_editor the_cfg s true es)) = cur s /\ m2o (after s (with_editor the_cfg s true es)) = m2o s /\
+    orig (after s (with_editor the_cfg s true es)) = orig s.
+Proof. exact (failed_batch_is_noop the_cfg). Qed.
+Print Assumptions C08_failed_batch_is_noop.
+
+Theorem C08_reach_closed_under_with_editor :
+  forall o s fails es,
+    Reach the_cfg o s ->
+    (fails = false -> edits_ok (cur s) es = true) ->
+    (forall s', with_editor the_cfg s fails es = Ok s' -> cur s' <> []) ->
+    Reach the_cfg o (after s (with_editor the_cfg s fails es)).
+Proof. exact (reach_with_editor the_cfg). Qed.
+Print Assumptions C08_reach_closed_under_with_editor.
